@@ -81,7 +81,7 @@ class SimFS:
   def _crash(self, fault, where):
     spec = fault.get('prefix', 'all')
     for h in list(self.handles):
-      if h.created:
+      if h.created and not getattr(h, 'orphan', False):
         n = _prefix_len(len(h.buf), spec)
         self.files[h.path] = bytes(h.buf[:n])
         if 0 < n < len(h.buf):
@@ -181,7 +181,12 @@ class SimFS:
     p = self.norm(path)
     if p not in self.files:
       raise missing_exc(errno.ENOENT, 'no such file', p)
-    self.effect('remove', p, do=lambda: self.files.pop(p))
+    def do():
+      self.files.pop(p)
+      for h in self.handles:
+        if h.path == p:
+          h.orphan = True   # unlinked while open: later writes reach no visible file
+    self.effect('remove', p, do=do)
 
   def rename(self, src, dst, overwrite=True, missing_exc=FileNotFoundError):
     s, d = self.norm(src), self.norm(dst)
@@ -192,6 +197,12 @@ class SimFS:
 
     def do():
       self.files[d] = self.files.pop(s)
+      # POSIX: an open descriptor follows the file across a rename
+      for h in self.handles:
+        if h.path == s:
+          h.path = d
+        elif h.path == d:
+          h.orphan = True   # the file it was writing has been replaced
     self.effect('rename', d, do=do)
 
   def read_bytes(self, path):
@@ -332,7 +343,7 @@ class SimWriteHandle:
     return True
 
   def flush(self):
-    if self.closed or not self.created or self.fs.dead:
+    if self.closed or not self.created or self.fs.dead or getattr(self, 'orphan', False):
       return
     self.fs.files[self.path] = bytes(self.buf)
 
@@ -344,7 +355,8 @@ class SimWriteHandle:
       return
 
     def do():
-      self.fs.files[self.path] = bytes(self.buf)
+      if not getattr(self, 'orphan', False):
+        self.fs.files[self.path] = bytes(self.buf)
       if self in self.fs.handles:
         self.fs.handles.remove(self)
     try:
